@@ -2,4 +2,4 @@
 From Coq Require Import Extraction ExtrOcamlBasic.
 From Robsd Require Import Lock.LockSpec.
 Extraction Language OCaml.
-Extraction "lk_model.ml" init run trace final_reports spec_ok_serial ops_upd log file.
+Extraction "lk_model.ml" init run trace final_reports spec_ok_serial ops_upd op_upd no_mids robsd_mids direct_part log file.
